@@ -553,6 +553,29 @@ def run(chk):
     if not okc:
         chk.violation(r_evl, "comparison", "evalComparison must return children.front().nodeValue(context).eval_cmp(this->type, <value of children[1]>); found %s: the comparison uses another operand or operator than the condition names" % txt, ec["file"], ec["l"])
 
+    # ---- C18.functype: which quantities are per-well
+    r_ft = chk.rule("C18.functype", "Parser::get_func classifies the left-hand side by the category of its summary keyword - Well -> well, Group -> group, Connection -> well_connection, Segment -> well_segment, Region -> region, Block -> block, Aquifer -> aquifer - and ASTNode lets only func_type == well contribute a set of matching wells: a group, field or region comparison is a scalar sub-condition", floor=7)
+    gf = fx.fn1("Opm::Action::Parser::get_func")
+    WANT_FT = {"Aquifer": "aquifer", "Well": "well", "Group": "group", "Connection": "well_connection", "Region": "region", "Block": "block", "Segment": "well_segment"}
+    sw = [n for n in walk(gf["body"]) if n["k"] == "Switch"]
+    if len(sw) != 1:
+        raise core.AnalysisBroken("Parser::get_func: switch over the keyword category not found")
+    got_ft = {}
+    for c in walk(sw[0]):
+        if c["k"] == "Case":
+            lab = [x["n"] for x in walk(c["v"]) if x["k"] == "Ref" and x.get("d") == "Enum"]
+            ret = [x["n"] for r_ in walk(c["sub"]) if r_["k"] == "Return" for x in walk(r_.get("e") or {}) if x["k"] == "Ref" and x.get("d") == "Enum"]
+            if lab:
+                got_ft[lab[0]] = (ret[0] if ret else None, c["l"])
+    for cat, want in WANT_FT.items():
+        g = got_ft.get(cat)
+        chk.instance(r_ft, cat, sample=dict(category=cat, func_type=g[0] if g else None))
+        if not g or g[0] != want:
+            chk.violation(r_ft, cat, "Parser::get_func maps the keyword category %s to FuncType::%s (expected %s): %s" % (cat, g[0] if g else "nothing", want, "a true comparison on such a quantity would contribute its entity names to the set of matching WELLS" if g and g[0] == "well" else "well-level comparisons of this kind would no longer select wells / would be treated as another kind"), gf["file"], g[1] if g else gf["l"])
+    extra_well = [cat for cat, (ft, ln) in got_ft.items() if ft == "well" and cat != "Well"]
+    if extra_well:
+        chk.violation(r_ft, "well-only", "categories %s are classified as per-well quantities" % extra_well, gf["file"], gf["l"])
+
     # ---- C18.sorted: the matching-well set is a sorted vector; the std set algorithms need it sorted and unique
     r_so = chk.rule("C18.sorted", "MatchingEntities keeps its wells in a sorted vector and combines sets with std::set_union / std::set_intersection / binary_search, which require sorted input: every function that inserts into the set commits (sort + unique) before it returns; commit sorts, removes duplicates up to the end and installs the result; the intersection with empty handling leaves the set alone when the other side has none, adopts the other side when it has none itself and intersects otherwise", floor=4)
     from verif.tree import escapes_without
